@@ -69,6 +69,17 @@ def run(gen, seed, n_ops=60):
             other = AW.ModelWorld(g2, loop, net, log, c10.installation(g2, rnd), C.Knobs(),
                                   host="10.0.0.2")
             bump("sessions_with_a_second_client")
+        # in some sessions a few of the application's subscribers take their time: the
+        # receive loop is held up while commands, faults, heartbeats and idle time go on
+        slow = random.Random(f"soak-slow/{gen}/{seed}").random() < 0.25
+        if slow:
+            bump("sessions_with_slow_subscribers")
+
+        async def settle():
+            await quiesce(loop)
+            if slow:
+                await asyncio.sleep(20.0)
+                await quiesce(loop)
         causes = []          # instants at which a fault / outage was caused or ended
         shutdown_spans = []  # (t0, t1) of shutdown() calls
         subs = []
@@ -88,6 +99,10 @@ def run(gen, seed, n_ops=60):
                 mk(f"acstate{ac.ac_id}", ac.subscribe_ac_state)
                 for z in ac.zones:
                     mk(f"zone{z.zone_id}", z.subscribe)
+            if slow:
+                srnd = random.Random(f"soak-slow-subs/{gen}/{seed}/{len(subs)}")
+                for sub in srnd.sample(subs, min(3, len(subs))):
+                    sub.delay = srnd.choice([0.01, 0.1, 0.5])
 
         def compare(pid, where):
             w.feed()
@@ -102,6 +117,7 @@ def run(gen, seed, n_ops=60):
 
         async def start_life(first):
             ok = await w.init_and_sync()
+            await settle()
             if ok is not True:
                 v("C09" if first else "C15", "init-fails-against-answering-console", ret=ok)
                 return False
@@ -152,7 +168,7 @@ def run(gen, seed, n_ops=60):
                 await H.probe(log, "set_power", w.at.air_conditioners[0].set_power(
                     api.AcPowerControl.TURN_ON))
                 c.transport.peer_data(raw[k:])
-                await quiesce(loop)
+                await settle()
                 w.console.knobs.apply_commands = True
                 got = [cmd["kind"] for (t, cc, f, cmd) in w.console.frames[n0:]
                        if cmd["kind"] not in REQUEST_KINDS]
@@ -177,6 +193,7 @@ def run(gen, seed, n_ops=60):
                     if fired:
                         break
                     await w.inject(c10.make_frame(gen, rnd, w, None, obs))
+                    await settle()
                 state["last_push"] = None
                 sub.action = None
                 if fired:
@@ -192,6 +209,7 @@ def run(gen, seed, n_ops=60):
                 raw = (c10.one_field_frame(gen, rnd, w, obs) if rnd.random() < 0.3
                        else c10.make_frame(gen, rnd, w, None, obs))
                 await w.inject(raw)
+                await settle()
                 state["last_push"], state["last_push_conn"] = raw, c.id
                 compare("C10", "after push")
                 bump("pushes")
@@ -200,6 +218,7 @@ def run(gen, seed, n_ops=60):
                     continue
                 mark = log.mark()
                 await w.inject(state["last_push"])
+                await settle()
                 changes = w.feed()
                 calls = [d["name"] for _, _, k, d in log.since(mark) if k == "SUB.call"]
                 if any(ch[4] is not False for ch in changes):
@@ -230,7 +249,7 @@ def run(gen, seed, n_ops=60):
                     r = e
                 else:
                     r = await H.probe(log, call[2], coro)
-                await quiesce(loop)
+                await settle()
                 frames = [(f, cmd) for (t, cc, f, cmd) in w.console.frames[n0:]
                           if cmd["kind"] not in REQUEST_KINDS]
                 exc = r if isinstance(r, Exception) else None
@@ -276,6 +295,14 @@ def run(gen, seed, n_ops=60):
                         a["status"] = c10.rand_ac(gen, rnd, a["status"]["ac"])
                         a["status"]["error"] = 0
                 tr = c.transport
+                if slow and rnd.random() < 0.6:
+                    # the fault finds the receive loop busy in a subscriber (with a frame that
+                    # makes the client ask nothing: an answer that arrives while the loop is
+                    # busy is lost with the connection, which no property forbids)
+                    tr.peer_data(c10.make_frame(gen, rnd, w, None, obs, kinds=["zone", "timer"]))
+                    await asyncio.sleep(0)
+                    await asyncio.sleep(0)
+                    bump("faults_while_a_subscriber_was_busy")
                 if kind == "fin":
                     tr.peer_eof()
                 elif kind == "rst":
@@ -288,7 +315,7 @@ def run(gen, seed, n_ops=60):
                     tr.peer_data(bytes(raw))
                 elif kind == "trunc_fin":
                     tr.peer_data(F.probe_frame(gen, 9)[:5])
-                    await quiesce(loop)
+                    await settle()
                     tr.peer_eof()
                 elif kind == "undecodable":
                     body = R.ext(0xFF30, b"\x00") if gen == 4 else R.ext(0xFF10, b"")
@@ -298,9 +325,9 @@ def run(gen, seed, n_ops=60):
                     c.fail_write_at = c.nwrites + rnd.randint(1, 3)
                     await H.probe(log, "set_power", w.at.air_conditioners[0].set_power(
                         api.AcPowerControl.TURN_ON))
-                await quiesce(loop)
+                await settle()
                 await asyncio.sleep(2.0 * refuse + lat + 2.5)
-                await quiesce(loop)
+                await settle()
                 causes.append(loop.time())
                 c2 = w.conn()
                 bump("faults")
@@ -326,7 +353,7 @@ def run(gen, seed, n_ops=60):
                 state["last_push"] = None
                 await asyncio.sleep(rnd.choice([0.001, 0.5, 2.0, 5.0, 31.0, 100.0, 299.0, 301.0,
                                                 400.0, 700.0]))
-                await quiesce(loop)
+                await settle()
                 compare("C10", "after idle time")
             else:  # cycle
                 state["last_push"] = None
@@ -341,7 +368,7 @@ def run(gen, seed, n_ops=60):
                       timers=timers)
                 mark = log.mark()
                 await asyncio.sleep(rnd.choice([0.5, 3.0, 400.0]))
-                await quiesce(loop)
+                await settle()
                 late = [k for _, _, k, d in log.since(mark)
                         if k in ("NET.connect_attempt", "NET.write", "NET.open", "SUB.call")]
                 if late or net.open_conns():
@@ -371,6 +398,10 @@ def run(gen, seed, n_ops=60):
                 if not any(t - 331.0 <= x <= t + 1e-9 for x in causes):
                     v("C08", "connection-reset-without-cause-while-heartbeats-are-answered",
                       at=t, causes=causes[-4:])
+        n2 = sum(1 for e in log.events if e[2] == "LOG.error"
+                 and "already waiting for incoming data" in str(e[3].get("exc")))
+        if n2:
+            bump("receive_loop_outlived_its_connection", n2)   # DESIGN §9, observation
         host_of = {d["conn"]: d["host"] for _, _, k, d in log.events if k == "NET.open"}
         by = {cid: b for cid, b in S.frames_by_conn(gen, log).items()
               if not duo or host_of.get(cid) == "10.0.0.1"}
